@@ -30,6 +30,7 @@ macro_rules! dispatch {
             "C17" => $f::<c16::C17>($($arg),*),
             "C18" => $f::<c16::C18>($($arg),*),
             "C19" => $f::<c19::C19>($($arg),*),
+            "C20" => $f::<c20::C20>($($arg),*),
             other => {
                 eprintln!("unknown property {other}");
                 2
